@@ -688,7 +688,10 @@ partial def stepCase (st : St) (v : Verdict) (i : Nat) (opText obs : String) : S
       -- flow throttling Spec, when the resource carries only direct/throttling flow rules and nothing else
       let (sp, v) : SpecSt × Verdict := match World.lookup sp.thrN res with
         | some rs =>
-          if !(w.isoRules res).isEmpty || !(w.hsCtrls res).isEmpty || !(w.breakers res).isEmpty || (!w.sys.isEmpty && inbound) then (sp, v) else
+          -- a request the Spec cannot judge (another family may reject it) also cannot be tracked: the throttling Spec of this
+          -- resource ends here (its schedule would be out of date afterwards)
+          if !(w.isoRules res).isEmpty || !(w.hsCtrls res).isEmpty || !(w.breakers res).isEmpty || (!w.sys.isEmpty && inbound) then
+            ({ sp with thrN := sp.thrN.filter (fun p => p.1 != res) }, v) else
           let dtObs := (obsField obsFull "dt").toNat?.getD 0
           let (sp, m) := specThrottleN sp res rs w.nowNs batch obs dtObs
           let v := match m with | some m => v.setViol s!"step={i} flow throttling: {m}" | none => v
